@@ -13,9 +13,8 @@ namespace Eval
 
 def toUpperAscii (s : Bytes) : Bytes := s.map fun c => if 97 ≤ c && c ≤ 122 then c - 32 else c
 
-def reservedBytes : List Bytes := Generated.reservedWords.map Bytes.ofString
-
-def isReserved (lit : Bytes) : Bool := reservedBytes.contains (toUpperAscii lit)
+/-- `IsReservedWord(strings.ToUpper(literal))` against the table regenerated from token.go -/
+def isReserved (lit : Bytes) : Bool := Generated.reservedWords.contains (toUpperAscii lit)
 
 def isKeywordLit (lit : Bytes) : Bool := Lexer.lookupIdent lit != .ident
 
@@ -147,8 +146,23 @@ def identOf : Expr → Option Token
 
 /-! ### built-in functions -/
 
+/-! ### names of the built-in functions, as byte strings (kernel-reducible literals) -/
+def fn_attribute_exists : Bytes := [97, 116, 116, 114, 105, 98, 117, 116, 101, 95, 101, 120, 105, 115, 116, 115]  -- attribute_exists
+def fn_attribute_not_exists : Bytes := [97, 116, 116, 114, 105, 98, 117, 116, 101, 95, 110, 111, 116, 95, 101, 120, 105, 115, 116, 115]  -- attribute_not_exists
+def fn_attribute_type : Bytes := [97, 116, 116, 114, 105, 98, 117, 116, 101, 95, 116, 121, 112, 101]  -- attribute_type
+def fn_begins_with : Bytes := [98, 101, 103, 105, 110, 115, 95, 119, 105, 116, 104]  -- begins_with
+def fn_contains : Bytes := [99, 111, 110, 116, 97, 105, 110, 115]  -- contains
+def fn_size : Bytes := [115, 105, 122, 101]  -- size
+def fn_if_not_exists : Bytes := [105, 102, 95, 110, 111, 116, 95, 101, 120, 105, 115, 116, 115]  -- if_not_exists
+def fn_list_append : Bytes := [108, 105, 115, 116, 95, 97, 112, 112, 101, 110, 100]  -- list_append
+
+
+def typeCodeBytes : OType → Bytes
+  | .N => [78] | .S => [83] | .B => [66] | .BOOL => [66, 79, 79, 76] | .NULL => [78, 85, 76, 76]
+  | .L => [76] | .M => [77] | .SS => [83, 83] | .NS => [78, 83] | .BS => [66, 83]
+
 def dynamodbTypeCodes : List Bytes :=
-  ["B", "BS", "BOOL", "L", "M", "NULL", "N", "NS", "SS", "S"].map Bytes.ofString
+  [.B, .BS, .BOOL, .L, .M, .NULL, .N, .NS, .SS, .S].map typeCodeBytes
 
 def subset (xs ys : List Bytes) : Bool := xs.all ys.contains
 
@@ -156,7 +170,7 @@ def fnAttributeType (path typ : Obj) : EvalM Obj :=
   match typ with
   | .str t =>
     if !dynamodbTypeCodes.contains t then throw "invalid type"
-    else pure (bool (!path.isUndefined && Bytes.ofString path.type.code == t))
+    else pure (bool (!path.isUndefined && typeCodeBytes path.type == t))
   | _ => throw "invalid type"
 
 def fnBeginsWith (path sub : Obj) : EvalM Obj :=
@@ -198,29 +212,29 @@ def fnSize (path : Obj) : EvalM Obj :=
 
 /-- the `functions` table: arity and `ForUpdate` -/
 def fnInfo (name : Bytes) : Option (Nat × Bool) :=
-  if name == Bytes.ofString "attribute_exists" then some (1, false)
-  else if name == Bytes.ofString "attribute_not_exists" then some (1, false)
-  else if name == Bytes.ofString "attribute_type" then some (2, false)
-  else if name == Bytes.ofString "begins_with" then some (2, false)
-  else if name == Bytes.ofString "contains" then some (2, false)
-  else if name == Bytes.ofString "size" then some (1, false)
-  else if name == Bytes.ofString "if_not_exists" then some (2, true)
-  else if name == Bytes.ofString "list_append" then some (2, true)
+  if name == fn_attribute_exists then some (1, false)
+  else if name == fn_attribute_not_exists then some (1, false)
+  else if name == fn_attribute_type then some (2, false)
+  else if name == fn_begins_with then some (2, false)
+  else if name == fn_contains then some (2, false)
+  else if name == fn_size then some (1, false)
+  else if name == fn_if_not_exists then some (2, true)
+  else if name == fn_list_append then some (2, true)
   else none
 
 def callFn (name : Bytes) (args : List Obj) : EvalM Obj :=
   match args with
   | [a] =>
-    if name == Bytes.ofString "attribute_exists" then pure (bool !a.isUndefined)
-    else if name == Bytes.ofString "attribute_not_exists" then pure (bool a.isUndefined)
-    else if name == Bytes.ofString "size" then fnSize a
+    if name == fn_attribute_exists then pure (bool !a.isUndefined)
+    else if name == fn_attribute_not_exists then pure (bool a.isUndefined)
+    else if name == fn_size then fnSize a
     else throw "arity"
   | [a, b] =>
-    if name == Bytes.ofString "attribute_type" then fnAttributeType a b
-    else if name == Bytes.ofString "begins_with" then fnBeginsWith a b
-    else if name == Bytes.ofString "contains" then fnContains a b
-    else if name == Bytes.ofString "if_not_exists" then pure (if a.isUndefined then b else a)
-    else if name == Bytes.ofString "list_append" then
+    if name == fn_attribute_type then fnAttributeType a b
+    else if name == fn_begins_with then fnBeginsWith a b
+    else if name == fn_contains then fnContains a b
+    else if name == fn_if_not_exists then pure (if a.isUndefined then b else a)
+    else if name == fn_list_append then
       match a, b with
       | .list xs, .list ys => pure (.list (xs ++ ys))
       | _, _ => throw "list_append is not supported"
